@@ -491,8 +491,12 @@ class ThreadPool(object):
                         # Call the method
                         future.execute(method, args, kwargs)
                     except Exception as ex:
+                        # (the task might be a callable without a name, e.g.
+                        # a functools.partial: the worker must survive it)
                         self._logger.exception(
-                            "Error executing %s: %s", method.__name__, ex
+                            "Error executing %s: %s",
+                            getattr(method, "__name__", method),
+                            ex,
                         )
                     finally:
                         # Mark the action as executed
